@@ -15,7 +15,8 @@ EXCLUDED = ['stdnum.isan', 'stdnum.meid', 'stdnum.us.ssn', 'stdnum.us.itin', 'st
 
 RULE = (
     'per module exposing compact() except the seven named in the property (isan, meid, us.ssn/itin/ein/atin/tin): '
-    'x ranges over corpus valid numbers (as written and in compact form), near-misses (common.mutations, single '
+    'x ranges over corpus valid numbers (as written and in compact form), further valid numbers (one per row of the '
+    'module-level tables, self-similar numbers, length-/letter-extremal numbers), near-misses (common.mutations, single '
     'digit changes), and garbage (corpus invalid strings, random strings); y = x decorated with candidate '
     'characters that compact() may remove or fold (every ASCII separator and whitespace character of '
     'common.SEPARATORS/WHITESPACE at every position, every key of stdnum.util._char_map inserted / substituted '
@@ -168,6 +169,22 @@ def _worker(task):
             for x in near:
                 if x:
                     explore('near-miss', x, P['near_level'], opts[:1])
+    # other valid numbers than the corpus ones: one per row of the tables of the module, self-similar numbers (the text
+    # of one part recurring in another part) and the length-/letter-extremal numbers; each explored like a corpus number
+    quota = 30 if tier == 'quick' else 400
+    if part == 0:
+        cands = []
+        for v in valid[:2]:
+            cands += [('table', y) for _lab, y in G.table_variants(mod, v, rng, 10 * quota)]
+            cands += [('self-similar', y) for _lab, y in G.self_similar(v, rng, 10 * quota)]
+        cands += [('extremal', y) for y in common.extremal_numbers(modname)]
+        taken = {}
+        for gen, y in cands:
+            if taken.get(gen, 0) >= quota:
+                continue
+            if G.call(mod, 'validate', mod.validate, (y,), {})[0] == 'ok':
+                taken[gen] = taken.get(gen, 0) + 1
+                explore(gen, y, 0, opts[:1])
     for x in invalid[:P['garbage']]:
         if x:
             explore('garbage-corpus', x, 1 if tier == 'thorough' else 0, opts[:1])
